@@ -311,7 +311,8 @@ Program gen_core(const std::string &campaign, uint64_t seed, bool thorough) {
     // avoid(known finding C09: one descriptor cannot be polled for two modules of a context; two auto-closing owners would also be the
     // program's own double close): every module registers private descriptors only
     p.set("fdpermod", 1);
-    if (campaign == "C20") p.set("filefds", r.chance(0.5) ? 1 : 0);   // every third user descriptor is one epoll refuses
+    if (campaign == "C20") p.set("filefds", r.chance(0.5) ? 1 : 0);
+    if (campaign == "C09") p.set("reap", r.chance(0.5) ? 1 : 0);   // processes may be gone for good: their pid sources cannot be polled (refused registration / failing start)   // every third user descriptor is one epoll refuses
     g.tasks_in_program = (campaign == "C04" ? r.chance(0.6) : r.chance(0.3)) && (g.pf.src_kinds & 32);   // (only where task sources can be generated at all)
     if (campaign == "C09" && r.chance(0.3)) { g.batching_mode = true; g.tasks_in_program = false; }
     if (campaign == "C02" && r.chance(0.4)) g.batching_mode = true;
@@ -330,6 +331,7 @@ Program gen_core(const std::string &campaign, uint64_t seed, bool thorough) {
         int c = r.weighted(g.pf.w_driver, NCAT);
         g.gen_op("D", (Cat)c, false);
     };
+    if (p.get("reap", 0) && r.chance(0.6)) p.add("D", "env_at", {0, 2, (long)r.below(4), 2});   // one of the processes is gone before anything watches it
     // some modules started explicitly, the rest left to the evaluation pass
     for (int i = 0; i < nm; i++) if (r.chance(0.45)) p.add("D", "start", {(long)i});
     for (int i = 0; i < nsetup; i++) driver_op();
